@@ -548,6 +548,9 @@ func (c *control) dirMove(colon, at bool, params []any) {
 	default:
 		c.argPos += n
 	}
+	if c.argPos < 0 || len(c.args) < c.argPos {
+		slip.ErrorPanic(c.scope, 0, "the goto directive at %d of %q moves outside the arguments", c.pos, c.str)
+	}
 }
 
 func (c *control) dirCall(colon, at bool, params []any) {
